@@ -62,6 +62,43 @@ CHECKS = {
              "commit; the model mirrors the repaired code.",
         technique="Coq proof (nested induction over schemas, window/partial-dict lemmas) + vm_compute correspondence + direct oracle",
         design="6 C05"),
+    "C04": dict(
+        text="Theorems (Coq, all well-formed schemas, all plain values, ALL w): subst_pins (every value the substituted "
+             "schema accepts carries the substituted data: scalars equal up to True/False~1/0 and the float tolerance, "
+             "lists element-wise, dicts on every key given), subst_keeps_unspecified (absent dict keys keep schema, "
+             "optionality and position). The clause 'if v conforms to S then S % v accepts v' is stated in full and "
+             "REFUTED for the faithful model (subst_accepts_value_refuted: known findings F20/F25, witnesses replay on "
+             "/repo); it is checked on /repo by the oracle outside that region. Proof is partial in that sense, and in "
+             "that the generation clause is checked by the oracle on the real generator only. Tie: per-run comparison of "
+             "the real substitute's result with the model; oracle: (a) accepts-v, (b) generated/accepted values carry v, "
+             "(c) unspecified keys unchanged.",
+        note=COMMON_NOTE + "Known findings F20, F25 (choice points over partial dicts) and F10 (NaN) are open and "
+             "listed in KNOWN_FINDINGS.txt; classified by schema shape so other failures are still reported.",
+        technique="Coq proof (nested induction, positional window lemmas) + refutation witness by vm_compute + vm_compute correspondence + direct oracle",
+        design="6 C04"),
+    "C12": dict(
+        text="Theorem subst_only_substerr (Coq, all well-formed schemas, EVERY value incl. placeholders, opaque objects, "
+             "non-convertible members): substitute returns a schema or fails with SubstitutionError, never another "
+             "exception nor DeclarationError; ill_formed_raises shows the well-formedness hypothesis is needed (F22). "
+             "Idempotence and usability of the result are stated (subst_idempotent_statement) but decided on every run "
+             "by the oracle on /repo (second substitution returns an equal schema; when S is hereditarily generable, "
+             "S % v generates values it accepts under min/max/random tapes) and by the model correspondence - partial.",
+        note=COMMON_NOTE + "Open known findings: F10 (NaN: not idempotent / rejects its own pinned value), F22 (`...` "
+             "placeholder kept in the middle of an element list). F08, F09, F11 were repaired by fix: commits.",
+        technique="Coq proof (outcome-class invariant by nested induction) + vm_compute correspondence + direct oracle",
+        design="6 C12"),
+    "C18": dict(
+        text="Theorems (Coq, all depths/fan-outs/orders of flat keys, no bound): split_join; rollout_flatten_inverse (for "
+             "every well-formed tree, every permutation of its separator-joined flattening, rollout returns a dict "
+             "equal - Python's order-insensitive nested == incl. optional flags and payload identity - to the tree, "
+             "under unambiguous_tmap; discharged for 1-character separators by sepfree); rollout_nested_id; refuted "
+             "witnesses for the carved-out corners (ambiguous multi-character separator, empty interior node, optional "
+             "interior key). Tie: real rollout result/exception vs the faithful string-level model incl. key order; "
+             "oracle: rollout(flatten(t)) == t with payload identity, nested input unchanged.",
+        note=COMMON_NOTE + "Closed under the global context. Ambiguity of multi-character separators is a fact about "
+             "strings (stated as hypothesis unambiguous_tmap), not a d42 defect.",
+        technique="Coq proof (loop invariant + tree induction, Permutation) + vm_compute correspondence + direct oracle",
+        design="6 C18"),
 }
 
 
